@@ -20,7 +20,7 @@ PLAN = dict(
           "Non-trivial: every executed pipeline whose first tool exited 0; distinct by fingerprint of the case. Switches: VERIF_C20_SKIP_F7=1 keeps '#', '?', '%', ':' out of "
           "file names (class excluded-f7-names), VERIF_C20_SKIP_STDOUT_NOTICE=1 excludes 'gen-signedexchange -o -' with an encrypted key (class excluded-stdout-notice); "
           "default: both are reported."),
-    assumptions=TRUSTED + ["the downstream library readers named by the property (bundle.Read, signature.NewVerifier/VerifyExchange, signedexchange.ReadExchange/Verify, "
+    assumptions=TRUSTED + ["which of several equivalent spellings of the base URL's percent-escapes gen-bundle uses is not prescribed; a redirect's target, resolved against the redirecting exchange's own URL, must be the URL of a 200 exchange octet for octet", "the downstream library readers named by the property (bundle.Read, signature.NewVerifier/VerifyExchange, signedexchange.ReadExchange/Verify, "
                            "certurl.ReadCertChain) are the acceptance judges next to the dump tools' exit statuses",
                            "github.com/youmark/pkcs8 (a dependency of the repository) produces the encrypted PKCS#8 test keys",
                            "the tools verify at time.Now(): cases carry offsets relative to the moment of execution with >= 2 minutes margin",
